@@ -203,7 +203,7 @@ impl<Effect, Event> KeyValue<Effect, Event> {
             builder_op(r) == (KeyValueOperation::Get { key: string_of(key) }), // [C17/command-get/one-Get-operation-carrying-the-given-key]
             forall|t: KeyValueResult, u: Result<Option<Vec<u8>>, KeyValueError>| #![auto] builder_maps(r, t, u) ==> call_ensures(KeyValueResult::unwrap_get, (t,), u), // [C17/command-get/the-answer-is-mapped-by-unwrap_get]
 //@rule X16.into 1 s/key\.into\(\)/into_string(key)/
-//@rule X1.closure-contract 1 closure#\.map#|$x: KeyValueResult| -> (res: Result<Option<Vec<u8>>, KeyValueError>) requires call_requires(KeyValueResult::unwrap_get, ($x,)) ensures call_ensures(KeyValueResult::unwrap_get, ($x,), res) // [C17/command-get/the-closure-given-to-map-answers-as-unwrap_get-does]\n#
+//@rule X1.closure-contract 1 closure#\.map\(#|$x: KeyValueResult| -> (res: Result<Option<Vec<u8>>, KeyValueError>) requires call_requires(KeyValueResult::unwrap_get, ($x,)) ensures call_ensures(KeyValueResult::unwrap_get, ($x,), res) // [C17/command-get/the-closure-given-to-map-answers-as-unwrap_get-does]\n#
 //@end
 
 //@extract id=command::set file=crux_kv/src/command.rs within="impl<Effect, Event> KeyValue<Effect, Event>" item="fn set" props=C17
@@ -214,7 +214,7 @@ impl<Effect, Event> KeyValue<Effect, Event> {
             builder_op(r) == (KeyValueOperation::Set { key: string_of(key), value: value }), // [C17/command-set/one-Set-operation-carrying-the-given-key-and-the-same-value-bytes]
             forall|t: KeyValueResult, u: Result<Option<Vec<u8>>, KeyValueError>| #![auto] builder_maps(r, t, u) ==> call_ensures(KeyValueResult::unwrap_set, (t,), u), // [C17/command-set/the-answer-is-mapped-by-unwrap_set]
 //@rule X16.into 1 s/key\.into\(\)/into_string(key)/
-//@rule X1.closure-contract 1 closure#\.map#|$x: KeyValueResult| -> (res: Result<Option<Vec<u8>>, KeyValueError>) requires call_requires(KeyValueResult::unwrap_set, ($x,)) ensures call_ensures(KeyValueResult::unwrap_set, ($x,), res) // [C17/command-set/the-closure-given-to-map-answers-as-unwrap_set-does]\n#
+//@rule X1.closure-contract 1 closure#\.map\(#|$x: KeyValueResult| -> (res: Result<Option<Vec<u8>>, KeyValueError>) requires call_requires(KeyValueResult::unwrap_set, ($x,)) ensures call_ensures(KeyValueResult::unwrap_set, ($x,), res) // [C17/command-set/the-closure-given-to-map-answers-as-unwrap_set-does]\n#
 //@end
 
 //@extract id=command::delete file=crux_kv/src/command.rs within="impl<Effect, Event> KeyValue<Effect, Event>" item="fn delete" props=C17
@@ -225,7 +225,7 @@ impl<Effect, Event> KeyValue<Effect, Event> {
             builder_op(r) == (KeyValueOperation::Delete { key: string_of(key) }), // [C17/command-delete/one-Delete-operation-carrying-the-given-key]
             forall|t: KeyValueResult, u: Result<Option<Vec<u8>>, KeyValueError>| #![auto] builder_maps(r, t, u) ==> call_ensures(KeyValueResult::unwrap_delete, (t,), u), // [C17/command-delete/the-answer-is-mapped-by-unwrap_delete]
 //@rule X16.into 1 s/key\.into\(\)/into_string(key)/
-//@rule X1.closure-contract 1 closure#\.map#|$x: KeyValueResult| -> (res: Result<Option<Vec<u8>>, KeyValueError>) requires call_requires(KeyValueResult::unwrap_delete, ($x,)) ensures call_ensures(KeyValueResult::unwrap_delete, ($x,), res) // [C17/command-delete/the-closure-given-to-map-answers-as-unwrap_delete-does]\n#
+//@rule X1.closure-contract 1 closure#\.map\(#|$x: KeyValueResult| -> (res: Result<Option<Vec<u8>>, KeyValueError>) requires call_requires(KeyValueResult::unwrap_delete, ($x,)) ensures call_ensures(KeyValueResult::unwrap_delete, ($x,), res) // [C17/command-delete/the-closure-given-to-map-answers-as-unwrap_delete-does]\n#
 //@end
 
 //@extract id=command::exists file=crux_kv/src/command.rs within="impl<Effect, Event> KeyValue<Effect, Event>" item="fn exists" props=C17
@@ -236,7 +236,7 @@ impl<Effect, Event> KeyValue<Effect, Event> {
             builder_op(r) == (KeyValueOperation::Exists { key: string_of(key) }), // [C17/command-exists/one-Exists-operation-carrying-the-given-key]
             forall|t: KeyValueResult, u: Result<bool, KeyValueError>| #![auto] builder_maps(r, t, u) ==> call_ensures(KeyValueResult::unwrap_exists, (t,), u), // [C17/command-exists/the-answer-is-mapped-by-unwrap_exists]
 //@rule X16.into 1 s/key\.into\(\)/into_string(key)/
-//@rule X1.closure-contract 1 closure#\.map#|$x: KeyValueResult| -> (res: Result<bool, KeyValueError>) requires call_requires(KeyValueResult::unwrap_exists, ($x,)) ensures call_ensures(KeyValueResult::unwrap_exists, ($x,), res) // [C17/command-exists/the-closure-given-to-map-answers-as-unwrap_exists-does]\n#
+//@rule X1.closure-contract 1 closure#\.map\(#|$x: KeyValueResult| -> (res: Result<bool, KeyValueError>) requires call_requires(KeyValueResult::unwrap_exists, ($x,)) ensures call_ensures(KeyValueResult::unwrap_exists, ($x,), res) // [C17/command-exists/the-closure-given-to-map-answers-as-unwrap_exists-does]\n#
 //@end
 
 //@extract id=command::list_keys file=crux_kv/src/command.rs within="impl<Effect, Event> KeyValue<Effect, Event>" item="fn list_keys" props=C17
@@ -247,7 +247,7 @@ impl<Effect, Event> KeyValue<Effect, Event> {
             builder_op(r) == (KeyValueOperation::ListKeys { prefix: string_of(prefix), cursor: cursor }), // [C17/command-list_keys/one-ListKeys-operation-carrying-the-given-prefix-and-cursor]
             forall|t: KeyValueResult, u: Result<(Vec<String>, u64), KeyValueError>| #![auto] builder_maps(r, t, u) ==> call_ensures(KeyValueResult::unwrap_list_keys, (t,), u), // [C17/command-list_keys/the-answer-is-mapped-by-unwrap_list_keys]
 //@rule X16.into 1 s/prefix\.into\(\)/into_string(prefix)/
-//@rule X1.closure-contract 1 closure#\.map#|$x: KeyValueResult| -> (res: Result<(Vec<String>, u64), KeyValueError>) requires call_requires(KeyValueResult::unwrap_list_keys, ($x,)) ensures call_ensures(KeyValueResult::unwrap_list_keys, ($x,), res) // [C17/command-list_keys/the-closure-given-to-map-answers-as-unwrap_list_keys-does]\n#
+//@rule X1.closure-contract 1 closure#\.map\(#|$x: KeyValueResult| -> (res: Result<(Vec<String>, u64), KeyValueError>) requires call_requires(KeyValueResult::unwrap_list_keys, ($x,)) ensures call_ensures(KeyValueResult::unwrap_list_keys, ($x,), res) // [C17/command-list_keys/the-closure-given-to-map-answers-as-unwrap_list_keys-does]\n#
 //@end
 }
 
